@@ -18,6 +18,23 @@ pub struct StCase {
     pub frames: i32,
     /// (g, n): the n-th simulation (0-based) of frame g perturbs the hash
     pub nondet: Option<(i32, u32)>,
+    /// index (0..24) of the order in which the four builder setters are called; the resulting
+    /// session must not depend on it
+    #[serde(default)]
+    pub order: u8,
+}
+
+/// The `k`-th permutation of 0..4 (lexicographic).
+fn perm4(k: u8) -> [usize; 4] {
+    let mut items = vec![0usize, 1, 2, 3];
+    let mut k = k as usize % 24;
+    let mut out = [0usize; 4];
+    for (i, f) in [6usize, 2, 1, 1].iter().enumerate() {
+        let idx = k / f;
+        k %= f;
+        out[i] = items.remove(idx);
+    }
+    out
 }
 
 #[derive(Debug, Default)]
@@ -35,13 +52,16 @@ pub fn run_case(c: &StCase) -> StResult {
     ggrs::verif_hooks::reset(1_000_000, 7, 1);
     let mut r = StResult::default();
     let built = catch_unwind(AssertUnwindSafe(|| -> Result<_, GgrsError> {
-        SessionBuilder::<CfgR>::new()
-            .with_num_players(c.players)?
-            .with_max_prediction_window(c.w)
-            .with_check_distance(c.cd)
-            .with_input_delay(c.d)
-            .with_sparse_saving_mode(c.sparse)
-            .start_synctest_session()
+        let mut b = SessionBuilder::<CfgR>::new().with_num_players(c.players)?;
+        for setter in perm4(c.order) {
+            b = match setter {
+                0 => b.with_max_prediction_window(c.w),
+                1 => b.with_check_distance(c.cd),
+                2 => b.with_input_delay(c.d),
+                _ => b.with_sparse_saving_mode(c.sparse),
+            };
+        }
+        b.start_synctest_session()
     }));
     let mut sess = match built {
         Err(p) => {
@@ -167,7 +187,13 @@ fn grid(thorough: bool) -> Vec<StCase> {
                 for &d in &delays {
                     for sparse in [false, true] {
                         for program in [Program::Changing, Program::Runs, Program::Constant] {
-                            v.push(StCase { players, cd, w, d, sparse, program, frames: 60, nondet: None });
+                            v.push(StCase { players, cd, w, d, sparse, program, frames: 60, nondet: None, order: 0 });
+                            // every other order of the four setters (one input program suffices)
+                            if program == Program::Constant && (thorough || d == 0) {
+                                for order in 1..24u8 {
+                                    v.push(StCase { players, cd, w, d, sparse, program, frames: 60, nondet: None, order });
+                                }
+                            }
                         }
                     }
                 }
@@ -262,8 +288,27 @@ pub fn c13() -> i32 {
             rep.samples.push(json!({"case": c, "calls": r.calls, "rollbacks": r.rollbacks}));
         }
     }
+    // the order of the builder's setters must not matter: same verdict and same trace as order 0
+    {
+        let mut base: std::collections::HashMap<(usize, usize, usize, usize, bool, u8), (bool, u64)> = std::collections::HashMap::new();
+        let pk = |p: Program| match p { Program::Changing => 0u8, Program::Runs => 1, Program::Sparse => 2, Program::Constant => 3 };
+        for (c, r) in cases.iter().zip(res.iter()) {
+            if c.order == 0 {
+                base.insert((c.players, c.cd, c.w, c.d, c.sparse, pk(c.program)), (r.rejected, r.fingerprint));
+            }
+        }
+        for (c, r) in cases.iter().zip(res.iter()) {
+            if c.order != 0 {
+                if let Some(&(rej, fp)) = base.get(&(c.players, c.cd, c.w, c.d, c.sparse, pk(c.program))) {
+                    if rej != r.rejected || (!rej && fp != r.fingerprint) {
+                        rep.add_finding(finding("C13", "setter-order-matters", &format!("setter order {:?} (0=window 1=check distance 2=delay 3=sparse): rejected={} trace {:x}; in the order 0,1,2,3: rejected={rej} trace {fp:x}", perm4(c.order), r.rejected, r.fingerprint), "synctest-det", c));
+                    }
+                }
+            }
+        }
+    }
     rep.evaluations += cases.len() as u64;
-    rep.parts.push(json!({"part": "deterministic game over the builder grid", "grid_points": cases.len(), "accepted_and_run": accepted, "rejected_by_builder": rejected, "rollbacks": rollbacks}));
+    rep.parts.push(json!({"part": "deterministic game over the builder grid (every configuration; with the constant input program also in all 24 orders of the four setters)", "grid_points": cases.len(), "accepted_and_run": accepted, "rejected_by_builder": rejected, "rollbacks": rollbacks}));
 
     // nondeterministic programs
     let mut nd: Vec<StCase> = Vec::new();
